@@ -20,7 +20,7 @@ LEVEL_TEXT = ("Crash-point enumeration per sampled model: every step of the refe
               "memory and through a JSON restart; models themselves are sampled by seed.")
 LEVEL_NOTE = "Trusted: dump comparison; the set of models is a seeded sample (the pause points per model are enumerated in the thorough tier)."
 PROBES = ["pause_in_memory", "pause_via_json", "pause_chain", "pause_at_0", "pause_at_end", "pause_with_working_task",
-          "pause_on_absence_step", "pause_after_finish", "reference_cut_off_by_limit"]
+          "pause_on_absence_step", "pause_after_finish", "reference_cut_off_by_limit", "with_subproject_task"]
 
 
 def budget(tier):
@@ -36,6 +36,16 @@ def gen(rng, tier):
     if rng.random() < 0.3:
         focus["res_abs"] = True
     spec = C.forward_spec(rng, tier, focus, max_time=rng.choice([10, 25, 40, 40]))
+    if rng.random() < 0.12:
+        # a sub-project task (automatic, advancing by another amount than 1 per step: its sub-project has another unit time)
+        m = spec["model"]
+        n0 = len(m["tasks"])
+        i = G.append_task(m, {"id": "tsub", "work": rng.choice([1.0, 2.0, 3.0, 1.5]), "rate": rng.choice([0.5, 0.25, 2.0, 1.5]),
+                              "sub": {"file": None, "unit_s": rng.choice([60, 120, 30])}}, rng)
+        for a in range(n0):
+            if rng.random() < 0.3:
+                m["deps"].append([a, i, rng.choice(spec["profile"]["kinds"])])
+        spec["ranks"]["tsub"] = max(spec["ranks"].values()) + 1
     spec["all_k"] = (tier == "thorough")
     spec["ks"] = [rng.randint(0, 30) for _ in range(3)]
     spec["chain"] = sorted(rng.randint(0, 20) for _ in range(rng.randint(2, 3)))
@@ -120,6 +130,8 @@ def run(spec):
 
     res = C.campaign.Result()
     res.count("models")
+    if any(t.get("sub") for t in spec["model"]["tasks"]):
+        res.count("with_subproject_task")
     scen.setup_run(spec.get("seed", 0))
     ref = scen.run_forward(spec["model"], spec.get("ranks"), spec["cfg"], want_snap=False)
     n = ref.rec.n_recorded
